@@ -415,6 +415,48 @@ def rule_unrolled(chk, facts):
     chk.floor("deserialize_* routines that test types", n, 25)
 
 
+VISITOR_TABLE = {
+    # routine -> visitor methods it may call (serde's contract for the typed routines; the tagged-buffer protocol of C08.R3 for the helpers)
+    "deserialize_bool": {"visit_bool"}, "deserialize_byte_buf": {"visit_byte_buf"}, "deserialize_bytes": {"visit_borrowed_bytes"},
+    "deserialize_enum": {"visit_enum"}, "deserialize_f32": {"visit_f32"}, "deserialize_f64": {"visit_f64"},
+    "deserialize_i8": {"visit_i8"}, "deserialize_i16": {"visit_i16"}, "deserialize_i32": {"visit_i32"}, "deserialize_i64": {"visit_i64"},
+    "deserialize_i128": {"visit_i128"}, "deserialize_u8": {"visit_u8"}, "deserialize_u16": {"visit_u16"}, "deserialize_u32": {"visit_u32"},
+    "deserialize_u64": {"visit_u64"}, "deserialize_u128": {"visit_u128"}, "deserialize_identifier": {"visit_string", "visit_u32"},
+    "deserialize_map": {"visit_map"}, "deserialize_struct": {"visit_map"}, "deserialize_newtype_struct": {"visit_newtype_struct"},
+    "deserialize_option": {"visit_none"}, "deserialize_seq": {"visit_seq"}, "deserialize_str": {"visit_borrowed_str"},
+    "deserialize_unit": {"visit_unit"}, "deserialize_blob": {"visit_byte_buf"}, "deserialize_function": {"visit_byte_buf"},
+    "deserialize_future": {"visit_unit"}, "deserialize_int": {"visit_byte_buf", "visit_i64", "visit_u64"},
+    "deserialize_nat": {"visit_byte_buf", "visit_u64"}, "deserialize_principal": {"visit_byte_buf"},
+    "deserialize_reserved": {"visit_byte_buf"}, "deserialize_service": {"visit_byte_buf"},
+    "recoverable_visit_some": {"visit_none", "visit_some"}, "deserialize_null": {"visit_unit"}, "deserialize_empty": set(),
+    "deserialize_text": {"visit_borrowed_str", "visit_string", "visit_str"}, "deserialize_tuple": {"visit_seq"},
+    "deserialize_tuple_struct": {"visit_seq"}, "deserialize_unit_struct": {"visit_unit"}, "deserialize_char": set(),
+    "deserialize_string": set(), "deserialize_any": set(), "deserialize_ignored_any": set(),
+}
+
+
+def rule_visitor_table(chk, facts):
+    """each deserialize_* routine hands the visitor the kind of value the routine is for — a vector is always delivered through visit_seq
+    over an accessor that validates every element, never short-circuited into visit_unit / visit_none for a visitor that will not look"""
+    D = get_decoder(facts)
+    tab = {}
+    for k, eb, s in D.sites("visit"):
+        tab.setdefault(fn_short(k).rsplit("::", 1)[-1], set()).add(s.name.rsplit("::", 1)[-1])
+    n = 0
+    for r, got in sorted(tab.items()):
+        n += 1
+        allowed = VISITOR_TABLE.get(r)
+        if allowed is None:
+            chk.bad(f"visitor-call:{r}", f"decoder routine {r} calls {sorted(got)} and is not in the reviewed visitor-call table")
+            continue
+        extra = got - allowed
+        chk.expect(not extra, f"visitor-call:{r}",
+                   f"{r} hands the visitor {sorted(extra)}; the routine may only call {sorted(allowed)} (a shortcut that answers for the visitor "
+                   f"without decoding skips the per-element checks of the value, e.g. bool cells being 0 or 1)",
+                   ok_detail=f"calls {sorted(got)}")
+    chk.floor("decoder routines that call the visitor", n, 30)
+
+
 def rule_raw_field_tests(chk, facts):
     """a type taken from a field list (`e.ty`, `w.ty`: as written in the type table, possibly a reference to a definition) may steer an
     optimisation or a hint without being resolved — the unresolved case then simply takes the general route — but it may not decide a
